@@ -109,18 +109,18 @@ func NewChooser(prefix []int) *Chooser { return &Chooser{prefix: prefix} }
 
 // Explorer drives exhaustive exploration.
 type Explorer struct {
-	Bound    int  // maximum number of costly deviations; <0 means unbounded (full tree)
-	Workers  int  // parallel workers (body must then be safe to run concurrently); default 1
+	Bound    int   // maximum number of costly deviations; <0 means unbounded (full tree)
+	Workers  int   // parallel workers (body must then be safe to run concurrently); default 1
 	MaxExecs int64 // cap; 0 = none
 	Stop     func() bool
 	// Body runs one execution. It must be deterministic given the chooser's answers.
 	Body func(c *Chooser)
 
-	Execs     int64
-	Points    int64
-	MaxDepth  int
-	CapHit    bool
-	mu        sync.Mutex
+	Execs    int64
+	Points   int64
+	MaxDepth int
+	CapHit   bool
+	mu       sync.Mutex
 }
 
 type work struct {
